@@ -67,6 +67,9 @@ def run_case(ctx, Model, case):
     if 'span_kind' not in case:
         from .common import h64
         case['span_kind'] = scripted.SPAN_KINDS[h64(['span', case]) % len(scripted.SPAN_KINDS)]
+    if 'history' not in case:
+        from .common import h64
+        case['history'] = [None, None, None, None, 'copy', 'deepcopy', 'reindex', 'add-variable'][h64(['hist', case]) % 8]
     if 't_numpy' not in case:
         from .common import h64
         case['t_numpy'] = h64(['tnp', case]) % 5 == 0       # the position given as a NumPy integer
